@@ -11,13 +11,22 @@ built from the working tree (B1 replay on compiled modules; B3 facts from the re
   negated, inside a tuple, folded `+ 1`).
 * spec/ConstFold.tla -- constant expressions in postfix construction, exact Python semantics
   on int/bool/dyadic floats with signed zeros; implementation-shaped `folded` rule and the C
-  helper for double %.  Binding: every published expression compiled and evaluated.  A "wide"
-  family (values beyond TLC's 32-bit integers) takes its expectation from Python integers.
+  helper for double %, proven equal to the reference.  Binding: every published expression
+  compiled and evaluated.  A "wide" family (values beyond TLC's 32-bit integers) takes its
+  expectation from Python integers.
 * spec/ConstPool.tla -- the constant pool as a state machine with the transcription of
   ExprNodes.make_dedup_key; TLC decides for ordered pairs whether they share a slot and whether
-  CPython distinguishes them.  Binding: modules in which the pair's constants are met in that
-  order; B3: the slot groups of the real pool (GlobalState.get_py_const recorded in a child)
-  are fed back to TLC (mode "real") and judged with the same ObsEq.
+  CPython distinguishes them, and proves that the pool never hands out a distinguishable
+  constant.  Binding: modules in which the pair's constants are met in that order (pairs that
+  Python considers equal although they differ first); B3: the slot groups of the real pool
+  (GlobalState.get_py_const recorded in a child) are fed back to TLC (mode "real") and judged
+  with the same ObsEq, the model's sharing verdict is compared with the real slots.
+* spec/ConstSeq.tla -- constant tuples / lists with repeat factors and their compile-time
+  consumers; implementation-shaped _calculate_constant_seq, proven equal to the reference.
+
+The implementation-shaped parts predict NO deviation any more (the defects they described were
+repaired): every difference between compiled code and the reference is a violation, and the
+`model_fidelity` counters (real behaviour the transcription does not predict) must be 0.
 
 S = spec, P = CPython evaluating the same source text, C = code generated from the tree.
 """
@@ -220,6 +229,11 @@ def run(tier, seed):
         "literals": lit_stats, "fold": fold_stats, "pool": {k: v for k, v in pool_stats.items() if not k.startswith("_")},
         "seq": seq_stats,
         "pool_real": pool_real,
+        # model vs real: what the implementation-shaped transcriptions predict and the real code does not do, or the
+        # other way round (every summand is 0 when the transcriptions describe the code)
+        "model_fidelity_total": sum(v for st in (fold_stats, seq_stats, pool_stats, pool_real)
+                                    for k, v in (st.get("model_fidelity") or {}).items() if k != "pairs") +
+        lit_stats["c_literal_text_differs_from_transcription"],
         "modules_built": len(mods.specs), "build_and_run_wall_s": round(mods.wall, 1),
         "rule": "literals: every accepted literal of the character-level grammar automaton up to the length bound (+ block-built "
                 "big integers); fold: every postfix-built expression within the token bound; pool: every ordered pair of the "
@@ -428,19 +442,13 @@ def plan_fold(tier, rng, rep, tlcs, mods, plans):
                 skipped += 1
     if len(cases) < 2000:
         core.die("ConstFold published only %d cases" % len(cases))
-    hazards = [s for s, r in cases.items() if r["val"] != r["ival"]]
-    hz_tags = {}
-    for s_ in hazards:
-        t_ = "+".join(sorted(cases[s_]["tags"]))
-        hz_tags[t_] = hz_tags.get(t_, 0) + 1
     folded = sum(1 for r in cases.values() if r["folded"])
     kinds = {}
     for r in cases.values():
         kinds[r["val"]["k"]] = kinds.get(r["val"]["k"], 0) + 1
     negzero = sum(1 for r in cases.values() if r["val"]["k"] == "float" and r["val"]["n"] == 0 and r["val"]["s"] == 1)
-    # (hazards may be absent: the % helper was repaired, the int ^ bint typing needs 5 tokens)
     if min(kinds.get(k, 0) for k in ("int", "bool", "float")) < 100 or negzero < 10 or folded in (0, len(cases)):
-        core.die("ConstFold case classes missing: kinds=%s hazards=%d negzero=%d folded=%d" % (kinds, len(hazards), negzero, folded))
+        core.die("ConstFold case classes missing: kinds=%s negzero=%d folded=%d" % (kinds, negzero, folded))
     # S vs P on every published expression
     for s, r in cases.items():
         so, po = L.fold_value_obs(r["val"]), py_obs(s)
@@ -448,9 +456,9 @@ def plan_fold(tier, rng, rep, tlcs, mods, plans):
             rep.spec_drift("ConstFold value vs CPython", {"src": s, "spec": so, "python": po})
 
     n_rep = 2500 if quick else 6000
-    chosen = set()
-    for t_ in hz_tags:
-        chosen.update(core.sample([s_ for s_ in hazards if "+".join(sorted(cases[s_]["tags"])) == t_], 300 if quick else 1200, rng))
+    # the cases the implementation evaluates at run time (float results are never folded) first: the C helpers
+    unfolded_mod = [s for s, r in cases.items() if not r["folded"] and L.rpn_top(r["rpn"]) == "%"]
+    chosen = set(core.sample(unfolded_mod, 300 if quick else 1200, rng))
     chosen.update(core.sample([s for s in cases if s not in chosen], n_rep, rng))
     chosen = sorted(chosen)
     rng.shuffle(chosen)
@@ -476,11 +484,10 @@ def plan_fold(tier, rng, rep, tlcs, mods, plans):
         risky = [i for i, t_ in enumerate(chunk) if t_ in wtexts and wtexts[t_].model()[2] and ("//" in t_ or "%" in t_)]
         mods.add(name, chunk, chunk, solo=risky)
         wnames.append(name)
-    stats = {"published": len(cases), "skipped_by_spec": skipped, "by_kind": kinds, "hazards_in_model": len(hazards), "hazard_tags": hz_tags,
-             "folded_in_model": folded, "negative_zero_results": negzero, "replayed": len(chosen), "wide_cases": len(wtexts), "sequence_cases": len(seqs)}
+    stats = {"published": len(cases), "skipped_by_spec": skipped, "by_kind": kinds, "folded_in_model": folded, "negative_zero_results": negzero, "replayed": len(chosen), "wide_cases": len(wtexts), "sequence_cases": len(seqs)}
 
     def judge(out, mods_, judged):
-        agree_model = 0
+        dev = 0
         for name in names:
             obs, err = out[name]
             chunk = mods_.meta[name][2]
@@ -494,15 +501,12 @@ def plan_fold(tier, rng, rep, tlcs, mods, plans):
                 judged["n"] += 1
                 judged["nontrivial"].add(s)
                 if o != want:
-                    hz = r["val"] != r["ival"]
-                    oc = "impl-model-value" if hz and o == L.fold_value_obs(r["ival"]) else classify(o, want)
-                    desc = {"part": "fold", "hazard": "+".join(sorted(r["tags"])) if hz else "none", "folded": r["folded"],
-                            "top": L.rpn_top(r["rpn"]), "result": r["val"]["k"]}
-                    rep.disagree(desc, oc, {"src": s, "want": want, "got": o, "impl_model": L.fold_value_obs(r["ival"]),
-                                            "ops": L.rpn_ops(r["rpn"])})
+                    dev += 1
+                    desc = {"part": "fold", "folded": r["folded"], "top": L.rpn_top(r["rpn"]), "result": r["val"]["k"]}
+                    rep.disagree(desc, classify(o, want), {"src": s, "want": want, "got": o, "ops": L.rpn_ops(r["rpn"])})
                 elif len([x for x in judged["samples"] if x["part"] == "fold"]) < 3 and len(r["rpn"]) >= 4:
                     judged["samples"].append({"part": "fold", "src": s, "expected": want, "got": o})
-        wbad = 0
+        wbad = wpred = 0
         for name in wnames:
             obs, err = out[name]
             chunk = mods_.meta[name][2]
@@ -521,11 +525,14 @@ def plan_fold(tier, rng, rep, tlcs, mods, plans):
                     continue
                 e = wtexts[s]
                 lit, ctyped, ov = e.model()
+                if ov and o == want:
+                    wpred += 1        # the mirror of `folded` predicted a C overflow that did not happen
                 if o != want:
                     wbad += 1
                     desc = {"part": "wide", "model": "unfolded-clong-overflow" if ov else "none", "folded": lit, "top": e.op}
                     rep.disagree(desc, classify(o, want), {"src": s, "want": want, "got": o})
-        stats["wide_deviations"] = wbad
+        # model-vs-real: the transcription (ConstFold.tla, WNode.model) predicts agreement everywhere
+        stats["model_fidelity"] = {"deviations_not_predicted": dev + wbad, "predicted_overflow_not_observed": wpred}
     plans.append(judge)
     return stats
 
@@ -541,15 +548,17 @@ def plan_seq(tier, rng, rep, tlcs, mods, plans):
         for r in t.printed:
             if "cons" in r:
                 cases.setdefault(L.render_seq_case(r), r)
-    hazards = [s for s, r in cases.items() if r["res"] != r["ires"]]
+    # reference-side class that matters most: the repeat changed the value and the consumer is decided at compile time
+    folded_in = [s for s, r in cases.items() if r["repeated"] and r["cons"]["c"] not in ("ret", "len", "in")]
     consumers = {r["cons"]["c"] for r in cases.values()}
-    if len(cases) < 1000 or len(hazards) < 50 or len(consumers) < 11 or len(hazards) > len(cases) // 2:
-        core.die("ConstSeq published %d cases, %d hazards, consumers %s" % (len(cases), len(hazards), sorted(consumers)))
+    if len(cases) < 1000 or len(folded_in) < 200 or len(consumers) < 11 or len(folded_in) > (3 * len(cases)) // 4:
+        core.die("ConstSeq published %d cases, %d repeated with a compile-time consumer, consumers %s" %
+                 (len(cases), len(folded_in), sorted(consumers)))
     for s, r in cases.items():
         so, po = L.seq_result_obs(r["res"], r["kind"]), py_obs(s)
         if so != po:
             rep.spec_drift("ConstSeq result vs CPython", {"src": s, "spec": so, "python": po})
-    chosen = set(core.sample(hazards, 500 if quick else 1500, rng))
+    chosen = set(core.sample(folded_in, 500 if quick else 1500, rng))
     chosen.update(core.sample([s for s in cases if s not in chosen], 700 if quick else 1500, rng))
     chosen = sorted(chosen)
     rng.shuffle(chosen)
@@ -559,7 +568,7 @@ def plan_seq(tier, rng, rep, tlcs, mods, plans):
         name = "c09seq%d" % (k // per_mod)
         mods.add(name, chosen[k:k + per_mod], chosen[k:k + per_mod])
         names.append(name)
-    stats = {"published": len(cases), "hazards_in_model": len(hazards), "replayed": len(chosen)}
+    stats = {"published": len(cases), "repeated_with_compile_time_consumer": len(folded_in), "replayed": len(chosen)}
 
     def judge(out, mods_, judged):
         dev = 0
@@ -576,15 +585,11 @@ def plan_seq(tier, rng, rep, tlcs, mods, plans):
                 judged["nontrivial"].add(s)
                 if o != want:
                     dev += 1
-                    hz = r["res"] != r["ires"]
-                    pred = L.seq_result_obs(r["ires"], r["kind"])
-                    desc = {"part": "seq", "hazard": "stale-repeat-constant" if hz else "none", "consumer": r["cons"]["c"],
-                            "kind": r["kind"], "stale": r["stale"]}
-                    rep.disagree(desc, "impl-model-value" if hz and o == pred else classify(o, want),
-                                 {"src": s, "want": want, "got": o, "impl_model": pred})
-                elif len([x for x in judged["samples"] if x["part"] == "seq"]) < 1 and r["stale"]:
+                    desc = {"part": "seq", "consumer": r["cons"]["c"], "kind": r["kind"], "repeated": r["repeated"]}
+                    rep.disagree(desc, classify(o, want), {"src": s, "want": want, "got": o})
+                elif len([x for x in judged["samples"] if x["part"] == "seq"]) < 1 and r["repeated"]:
                     judged["samples"].append({"part": "seq", "src": s, "expected": want, "got": o})
-        stats["deviations"] = dev
+        stats["model_fidelity"] = {"deviations_not_predicted": dev}      # ConstSeq.ImplAgrees: none is predicted
     plans.append(judge)
     return stats
 
@@ -595,7 +600,7 @@ def plan_seq(tier, rng, rep, tlcs, mods, plans):
 
 def plan_pool(tier, rng, rep, tlcs, mods, plans):
     quick = tier == "quick"
-    consts = {}     # key -> record {c, obs, tc, tobs, dedup}
+    consts = {}     # key -> record {c, obs, tc, tobs, dedup, diff}
     pairs = {}      # (keya, keyb) -> record
     for t in tlcs:
         for r in t.printed:
@@ -605,14 +610,17 @@ def plan_pool(tier, rng, rep, tlcs, mods, plans):
                 pairs.setdefault((L.const_key(r["a"]), L.const_key(r["b"])), r)
     if len(consts) < 300 or len(pairs) < 1000:
         core.die("ConstPool published %d constants, %d pairs" % (len(consts), len(pairs)))
-    causes = {}
+    # reference-side classes of the pairs: how two constants that Python considers equal differ for CPython
+    diffs = {}
     for r in pairs.values():
-        causes[r["cause"]] = causes.get(r["cause"], 0) + 1
+        diffs[r["diff"]] = diffs.get(r["diff"], 0) + 1
     n_near_model = sum(1 for r in pairs.values() if r["near"])
-    if not causes.get("zero-sign") or not causes.get("fset-order") or not causes.get("none") or n_near_model < 100:
-        core.die("ConstPool pair classes missing: %s near=%d" % (causes, n_near_model))
-    if not all(r["fixed_ok"] for r in pairs.values()):
-        core.die("ConstPool: the repaired key hands out a distinguishable constant")
+    if min(diffs.get(k, 0) for k in ("zero-sign", "fset-order", "num-type", "none")) < 20 or n_near_model < 100:
+        core.die("ConstPool pair classes missing: %s near=%d" % (diffs, n_near_model))
+    # ConstPool.SharedImpliesObsEq, seen from the published records
+    if any(r["shared"] and not r["obseq"] for r in pairs.values()):
+        core.die("ConstPool: the model shares a pair that CPython distinguishes (invariant SharedImpliesObsEq should have failed)")
+    missed = sum(1 for r in pairs.values() if r["obseq"] and not r["shared"])
     # S vs P on every constant: Obs(c) against CPython evaluating the rendered text (plain and tagged form)
     TAG0 = 1000
     text_of, want_of = {}, {}
@@ -639,8 +647,8 @@ def plan_pool(tier, rng, rep, tlcs, mods, plans):
                 sigs(x, acc)
         return acc
 
-    def hazard(p):      # the implementation-shaped pool hands out something else than what was written
-        return pairs[p]["cause"] != "none" or consts[p[0]]["cause"] != "none"
+    def hazard(p):      # sensitive: merging by Python equality would hand out a distinguishable constant somewhere
+        return pairs[p]["diff"] not in ("none", "unequal") or consts[p[0]]["diff"] != "none" or consts[p[1]]["diff"] != "none"
 
     def prio(p):
         r = pairs[p]
@@ -662,7 +670,7 @@ def plan_pool(tier, rng, rep, tlcs, mods, plans):
     def shape(p):       # class of a pair: kinds, repeat factors, length, nesting, cause
         a, b = pairs[p]["a"], pairs[p]["b"]
         return json.dumps([a["k"], a["m"], b["k"], b["m"], len(a["items"]), sorted({x["k"] for x in a["items"]}),
-                           pairs[p]["cause"]])
+                           pairs[p]["diff"]])
     order = sorted(pairs)
     rng.shuffle(order)
     hz = round_robin([p for p in order if prio(p) == 0], shape)
@@ -702,12 +710,13 @@ def plan_pool(tier, rng, rep, tlcs, mods, plans):
         chosen += [p for p in lst if taggable(p)][:int(quota * share)]
     rng.shuffle(chosen)
     names, tnames = [], []
-    count = {"plain": 0, "tagged": 0, "hazard": 0, "near": 0}
+    count = {"plain": 0, "tagged": 0, "hazard": 0, "near": 0, "by_diff": {}}
 
     def tally(p, kind):
         count[kind] += 1
         if hazard(p):
             count["hazard"] += 1
+        count["by_diff"][pairs[p]["diff"]] = count["by_diff"].get(pairs[p]["diff"], 0) + 1
         if pairs[p]["near"]:
             count["near"] += 1
     for i, layer in enumerate(layers):
@@ -734,13 +743,19 @@ def plan_pool(tier, rng, rep, tlcs, mods, plans):
         mods.add(name, exprs, cases, per_fun=100)
         tnames.append(name)
     if count["hazard"] < 40 or count["near"] < 40:
-        core.die("ConstPool: only %d hazard pairs / %d near misses could be scheduled" % (count["hazard"], count["near"]))
-    stats = {"constants": len(consts), "pairs_in_model": len(pairs), "pair_causes_in_model": causes, "near_miss_pairs_in_model": n_near_model,
+        core.die("ConstPool: only %d sensitive pairs / %d near misses could be scheduled" % (count["hazard"], count["near"]))
+    if min(count["by_diff"].get(k, 0) for k in ("zero-sign", "fset-order", "num-type")) < 10:
+        core.die("ConstPool: sensitive pair classes not scheduled: %s" % count["by_diff"])
+    stats = {"constants": len(consts), "pairs_in_model": len(pairs), "pair_diff_classes_in_model": diffs, "near_miss_pairs_in_model": n_near_model,
+             "shared_pairs_in_model": sum(1 for r in pairs.values() if r["shared"]),
+             "indistinguishable_pairs_not_shared_in_model": missed,
              "pairs_replayed_plain": count["plain"], "pairs_replayed_tagged": count["tagged"],
-             "hazard_pairs_replayed": count["hazard"], "near_miss_pairs_replayed": count["near"],
+             "sensitive_pairs_replayed": count["hazard"], "replayed_by_diff_class": count["by_diff"],
+             "near_miss_pairs_replayed": count["near"],
              "_consts": consts, "_pairs": pairs, "_names": names, "_text": text_of, "_want": want_of}
 
     def judge(out, mods_, judged):
+        dev = 0
         for name in names + tnames:
             obs, err = out[name]
             chunk = mods_.meta[name][2]
@@ -756,20 +771,20 @@ def plan_pool(tier, rng, rep, tlcs, mods, plans):
                     wa, wb = L.const_obs(consts[ka]["tobs"], tg), L.const_obs(consts[kb]["tobs"], tg)
                     ta, tb = L.render_const(consts[ka]["tc"], tg), L.render_const(consts[kb]["tc"], tg)
                 want = wb if which else wa
-                src = r if which else consts[ka]       # the record that carries the model's prediction for this function
                 judged["n"] += 1
                 judged["nontrivial"].add(ta + "|" + tb + "|%d" % which)
                 if o != want:
-                    pred = None
-                    if src["cause"] != "none":
-                        pred = L.const_obs(src["ret"]) if tg is None else L.const_obs(src["tret"], tg)
-                    desc = {"part": "pool", "cause": src["cause"], "shared_in_model": r["shared"], "kind": r["a"]["k"], "near_miss": r["near"],
-                            "position": "second" if which else "first", "tagged": tg is not None}
-                    rep.disagree(desc, "impl-model-value" if (pred is not None and o == pred) else classify(o, want),
+                    dev += 1
+                    # the model (ConstPool.PoolSound) predicts the constant as written; "cause" is the reference-side
+                    # class of the pair (of the constant itself for the first function)
+                    desc = {"part": "pool", "cause": r["diff"] if which else consts[ka]["diff"], "shared_in_model": r["shared"],
+                            "kind": r["a"]["k"], "near_miss": r["near"], "position": "second" if which else "first", "tagged": tg is not None}
+                    rep.disagree(desc, "value-of-first-constant" if (which and o == wa) else classify(o, want),
                                  {"first": ta, "second": tb, "returned_by": "second" if which else "first",
-                                  "want": want, "got": o, "impl_model": pred, "module": name})
+                                  "want": want, "got": o, "module": name})
                 elif which and r["shared"] and r["obseq"] and len([x for x in judged["samples"] if x["part"] == "pool"]) < 2:
                     judged["samples"].append({"part": "pool", "first": ta, "second": tb, "expected": want, "got": o})
+        stats["model_fidelity"] = {"deviations_not_predicted": dev}
     plans.append(judge)
     return stats
 
